@@ -19,6 +19,7 @@ files = re.findall(r"^\+\+\+ b/(\S+)", open(d + "/patch.diff").read(), re.M)
 json.dump({"property": pid, "source": "independent sub-agent (given only the property text and a scratch worktree)", "files": files}, open(d + "/meta.json", "w"), indent=1)
 PY
 }
+[ -f "$src/patch.diff" ] || { echo "no patch.diff in $src yet: nothing imported, worktree kept"; exit 1; }
 imp $s1 patch.diff README.md demo
 imp $s2 patch2.diff README2.md demo2
 git -C /repo worktree remove --force $wt 2>/dev/null
